@@ -385,6 +385,51 @@ def explore_sequence(case):
     return res
 
 
+def explore_script(case):
+    """the model modules are also run as scripts (`python -m cyecca.models.<m> <dest>`), which is how the shipped C files are produced:
+    the script's output must be byte-identical to the output of the same export list generated through the API in this process"""
+    import sys
+    setname = case["set"]
+    res = core.Result()
+    E = equation_sets()[setname]
+    mod = {"rdd2": "cyecca.models.rdd2", "rdd2_loglinear": "cyecca.models.rdd2_loglinear", "bezier": "cyecca.models.bezier"}[setname]
+    tmp = tempfile.mkdtemp(prefix="c09x_", dir=os.environ.get("VERIF_SCRATCH") or None)
+    try:
+        res.count("evaluations")
+        res.count("programs")
+        res.nontrivial.add(hash(setname))
+        res.nontrivial.add(hash(setname + "x"))
+        api = _generate(E, os.path.join(tmp, "api"), {})
+        env = dict(os.environ)
+        env["MPLBACKEND"] = "Agg"
+        r = subprocess.run([sys.executable, "-W", "ignore", "-m", mod, os.path.join(tmp, "script")], capture_output=True, text=True, env=env, cwd=tmp, timeout=600)
+        if r.returncode != 0:
+            res.fail(site=setname + ".__main__", clause="script_entry_point_succeeds", cls="script", detail=dict(rc=r.returncode, stderr=r.stderr[-400:]), sub="script", case=case)
+            return res
+        got = {}
+        for root, _, files in os.walk(os.path.join(tmp, "script")):
+            for fn in sorted(files):
+                got[fn] = open(os.path.join(root, fn)).read()
+        res.outcomes.add(hash(tuple(sorted(got))))
+        if got != api:
+            diff = sorted(set(got) ^ set(api)) or [f for f in api if got.get(f) != api[f]]
+            res.fail(site=setname + ".__main__", clause="script_output_equals_api_output", cls="script", detail=dict(differing_files=diff[:6]), sub="script", case=case)
+    finally:
+        shutil.rmtree(tmp, ignore_errors=True)
+    res.samples.append(dict(script=mod))
+    return res
+
+
+class _Script:
+    chunks = 1
+
+    def cases(self, tier, seed):
+        return [dict(sub="script", set=n, tier=tier) for n in ("rdd2", "rdd2_loglinear", "bezier")]
+
+    def run(self, case):
+        return explore_script(case)
+
+
 def json_key(w):
     return tuple(tuple(sorted(o.items())) for o in w)
 
@@ -420,5 +465,5 @@ class _Sub:
         return explore(case)
 
 
-SUBCHECKS = {"gen": _Sub(), "seq": _Seq()}
-REPLAY = {"gen": lambda c: explore(c).fails, "seq": lambda c: explore_sequence(c).fails}
+SUBCHECKS = {"gen": _Sub(), "seq": _Seq(), "script": _Script()}
+REPLAY = {"gen": lambda c: explore(c).fails, "seq": lambda c: explore_sequence(c).fails, "script": lambda c: explore_script(c).fails}
